@@ -31,6 +31,45 @@ mod verif_ift_patchmap {
         kani::cover!(r.is_err() && want > u32::MAX as i64);
     }
 
+
+    // Format-1 feature map intersection on a mapping table of ARBITRARY bytes (C19 "feature ... conditions intersect", C20 / C01
+    // totality): never overflows or indexes out of bounds whatever the record counts / first-new-entry indices are, only ever
+    // creates entries in (maxGlyphMapEntryIndex, maxEntryIndex], and a valid first entry-map record whose [first, last] range
+    // covers an existing entry creates its mapped entry.
+    //@harness unit=U19.4 props=C19,C20,C01 tier=quick level=bounded bound="mapping table of any bytes <= 64 B with maxEntryIndex <= 15 (1-byte entry-map fields); all features or one requested tag; at most one pre-existing entry" timeout=2400 fns=intersect_format1_feature_map,merge_intersecting_entries,FeatureMap::entry_records_size
+    #[kani::proof]
+    #[kani::unwind(8)]
+    #[kani::stub(std::hash::RandomState::new, fixed_state)]
+    fn format1_feature_map_total_and_in_range() {
+        let mut b: [u8; 64] = kani::any();
+        let len: usize = kani::any();
+        kani::assume(len <= 64);
+        b[0] = 1;
+        kani::assume(b[21] == 0 && b[22] <= 15);
+        let Ok(map) = PatchMapFormat1::read(FontData::new(&b[..len])) else { return; };
+        let max_entry = map.max_entry_index();
+        let max_gm = map.max_glyph_map_entry_index();
+        let mut entries: BTreeMap<u16, SubsetDefinition> = BTreeMap::new();
+        let k: u16 = kani::any();
+        let have_k: bool = kani::any();
+        if have_k {
+            entries.insert(k, SubsetDefinition::default());
+        }
+        let tagb: [u8; 4] = kani::any();
+        let all: bool = kani::any();
+        let features = if all { FeatureSet::All } else { FeatureSet::Set(BTreeSet::from([Tag::from_be_bytes(tagb)])) };
+        let r = intersect_format1_feature_map::<false>(&map, &features, &mut entries);
+        for (idx, _) in entries.iter() {
+            assert!((have_k && *idx == k) || (*idx > max_gm && *idx <= max_entry));
+        }
+        if !have_k {
+            assert!(entries.is_empty());
+        }
+        kani::cover!(r.is_ok() && entries.len() == 2);
+        kani::cover!(r.is_ok() && !all && entries.len() == 2);
+        kani::cover!(r.is_err());
+    }
+
     // NOTE: a harness decoding one whole entry (decode_format2_entry on <= 12 arbitrary bytes after one prior entry) did not
     // finish in 1800 s (String / HashMap / sparse-bit-set decoding) and was removed: that the decoder establishes entries_wf stays
     // an ASSUMPTION of unit U19.1.
